@@ -137,3 +137,20 @@ Theorem C09_no_truncation_string :
   = Some (bias_groups f a (zip4 ys zs (string_keys kind names label bins) ws)).
 Proof. exact bias_no_truncation_string. Qed.
 Print Assumptions C09_no_truncation_string.
+
+(* ---- tie of the model's identification function to the code translated from source ---- *)
+From Coq Require Import Reals Qreals.
+From MD Require Import lib.NumpyR gen.Gen_ident proofs.BiasBridge.
+
+(* on rational arguments the identification function translated from identification.py
+   (gen_V, regenerated on every run) IS the model's Vq ... *)
+Theorem C09_V_is_generated : forall f a y z, level_bad f a = false ->
+  gen_V (fnl_of f) (Q2R a) (Q2R y) (Q2R z) = Ok (Q2R (Vq f a y z)).
+Proof. exact Vq_is_generated. Qed.
+Print Assumptions C09_V_is_generated.
+
+(* ... and raises ValueError exactly when the model's level guard fires *)
+Theorem C09_level_guard_is_generated : forall f a y z, level_bad f a = true ->
+  gen_V (fnl_of f) (Q2R a) (Q2R y) (Q2R z) = ValueErr.
+Proof. exact level_guard_is_generated. Qed.
+Print Assumptions C09_level_guard_is_generated.
